@@ -37,6 +37,8 @@ fn gen_program(t: &mut Tape, modified: bool) -> ProgOut {
     filler(t, &mut lines);
     if modified {
         lines.push("function thrower(s) { throw new Error('boom ' + s) }".into());
+        // eval code that throws, itself called from eval code: two eval frames in one trace
+        lines.push("function evalThrower(s) { return eval('thrower(s)') + s }".into());
     } else {
         lines.push("function thrower(s) { throw new Error(s) }".into());
     }
@@ -44,7 +46,7 @@ fn gen_program(t: &mut Tape, modified: bool) -> ProgOut {
     for k in 0..n {
         filler(t, &mut lines);
         let name = format!("t{k}");
-        let choice = if modified { t.below(10) } else { 100 + t.below(4) };
+        let choice = if modified { t.below(11) } else { 100 + t.below(4) };
         match choice {
             0 => lines.push(format!("function {name}(a, b) {{ return a.x.substring(1) + b }}")),
             1 => lines.push(format!("function {name}(a, b) {{ return thrower('{name}' + a.s) }}")),
@@ -74,6 +76,7 @@ fn gen_program(t: &mut Tape, modified: bool) -> ProgOut {
                 lines.push(format!("function {name}(a, b) {{ return new C{k}().m(a) }}"));
             }
             8 => lines.push(format!("function {name}(a, b) {{ b = undefined; return b.trim() + a.s }}")),
+            10 => lines.push(format!("function {name}(a, b) {{ return eval('evalThrower(a.s)') + a.s }}")),
             // an error message that itself contains lines looking like stack frames (a wrapped cause, a quoted trace)
             9 => lines.push(format!("function {name}(a, b) {{ throw new Error('wrapped ' + a.s + '\\n    at inner (/nowhere/cause.js:1:1)\\n  at all costs') }}")),
             103 => lines.push(format!("function {name}(a, b) {{ throw new Error('plain\\n    at inner (/nowhere/cause.js:1:1)\\n  at all costs') }}")),
@@ -183,6 +186,15 @@ impl Check for C11 {
                     }
                     if kind == 3 {
                         code = "function broken( {\n".into();
+                    }
+                    if kind == 1 && t.chance(100) {
+                        // a file that is not modified and ends with a reference of its own (missing external map / inline map)
+                        if t.flag() {
+                            code.push_str("//# sourceMappingURL=not-shipped.js.map\n");
+                        } else {
+                            let m = r#"{"version":3,"sources":["elsewhere.ts"],"names":[],"mappings":"AAKA;AACA;AACA;AACA;AACA;AACA;AACA;AACA"}"#;
+                            code.push_str(&format!("//# sourceMappingURL=data:application/json;base64,{}\n", smap::encode_base64(m.as_bytes())));
+                        }
                     }
                     steps.push(json!({"op": "rewrite", "file": file, "code": code, "config": cfg, "spans": p.spans, "origMap": orig, "sites": p.sites, "kind": kind}));
                     if kind != 3 {
